@@ -870,6 +870,21 @@ func mayBeNil(v ssa.Value, seen map[ssa.Value]bool) bool {
 			if n == "fmt.Errorf" || n == "errors.New" {
 				return false
 			}
+			// a helper of the module that builds the error: every return of it hands out a non-nil value
+			// (func errRule(val string) error { return fmt.Errorf(...) })
+			if len(callee.Blocks) > 0 && callee.Signature.Results().Len() == 1 && !seen[callee] {
+				seen[callee] = true
+				rets := Returns(callee)
+				if len(rets) == 0 {
+					return true
+				}
+				for _, r := range rets {
+					if len(r.Results) != 1 || mayBeNil(unspill(r, r.Results[0]), seen) {
+						return true
+					}
+				}
+				return false
+			}
 		}
 		return true
 	case *ssa.Extract:
